@@ -56,7 +56,7 @@ theorem hidden_resolve (fuel : Nat) (root : Val) (q : Pos) (kcls : Cls) (nkvs : 
     (hp : PlainPos q) (hn : PlainKey name) (hq : getAt root q = some (.dict kcls nkvs))
     (hl : lookup name nkvs = some old) (hf : fuel ≥ 2 * (q.length + 1)) :
     ∃ r1, findD fuel root [] false true (tokenize (slash ++ renderPos (q ++ [.key name]))) (.at []) true slash = .ok (root, r1) ∧
-      r1.parent = .at q ∧ r1.nameIdx = some name := by
+      r1.parent = .at q ∧ r1.nameIdx = some name ∧ FoundAt root [] (q ++ [.key name]) old r1 := by
   have hP : getAt root (q ++ [Seg.key name]) = some old := by
     rw [getAt_snoc, hq]; simp [child, hl]
   have hpp : PlainPos (q ++ [Seg.key name]) := hp.append ⟨hn, trivial⟩
@@ -67,7 +67,7 @@ theorem hidden_resolve (fuel : Nat) (root : Val) (q : Pos) (kcls : Cls) (nkvs : 
   obtain ⟨hpar, hni⟩ := foundAt_snoc_key hfound hq
   have htok : tokenize (slash ++ renderPos (q ++ [Seg.key name])) = mergedToks (q ++ [Seg.key name]) :=
     tokenize_render _ hpp
-  exact ⟨r, by rw [htok]; exact hr, hpar, hni⟩
+  exact ⟨r, by rw [htok]; exact hr, hpar, hni, hfound⟩
 
 theorem realPlace_at (fuel : Nat) (root : Val) (k : Nat) (r : Res) (q : Pos) (h : r.parent = .at q) :
     realPlace fuel root (k + 1) r = .ok r := by
@@ -80,7 +80,7 @@ theorem hidden_place_found (fuel : Nat) (root : Val) (q : Pos) (kcls : Cls) (nkv
     (hl : lookup name nkvs = some old) (hf : fuel ≥ 2 * (q.length + 1)) :
     hiddenPlace fuel root ({ parent := .wrap (.at (q ++ [.key name])), nameIdx := ni, value := val, found := slash ++ renderPos (q ++ [.key name]), notFound := Option.none } : Res)
       = .ok ({ parent := .at q, nameIdx := some name, value := val, found := slash ++ renderPos (q ++ [.key name]), notFound := Option.none } : Res) := by
-  obtain ⟨r1, hr1, hpar, hni⟩ := hidden_resolve fuel root q kcls nkvs name old hp hn hq hl hf
+  obtain ⟨r1, hr1, hpar, hni, _⟩ := hidden_resolve fuel root q kcls nkvs name old hp hn hq hl hf
   obtain ⟨f, rfl⟩ : ∃ f, fuel = f + 1 := ⟨fuel - 1, by omega⟩
   simp only [hiddenPlace, isWrap, List.isEmpty_nil, Bool.true_or, Bool.and_self, if_true, hr1,
     realPlace_at (f + 1) root f r1 q hpar, hpar, hni]
@@ -103,7 +103,7 @@ theorem hidden_place_one (fuel : Nat) (root : Val) (q : Pos) (kcls : Cls) (nkvs 
     (hl : lookup name nkvs = some old) (hf : fuel ≥ 2 * (q.length + 1)) :
     hiddenPlace fuel root ({ parent := .wrap (.at (q ++ [.key name])), nameIdx := some (bracket (intStr 1)), value := Val.none, found := slash ++ renderPos (q ++ [.key name]), notFound := some (tok :: rest) } : Res)
       = .ok ({ parent := .at q, nameIdx := Option.none, value := Val.none, found := slash ++ renderPos (q ++ [.key name]), notFound := some ((name ++ bracket sNew) :: rest) } : Res) := by
-  obtain ⟨r1, hr1, hpar, hni⟩ := hidden_resolve fuel root q kcls nkvs name old hp hn hq hl hf
+  obtain ⟨r1, hr1, hpar, hni, _⟩ := hidden_resolve fuel root q kcls nkvs name old hp hn hq hl hf
   simp only [hiddenPlace, isWrap, hidden_intStr_one, List.isEmpty_cons, Bool.false_or, decide_true, Bool.and_self,
     if_true, hr1, Bool.false_eq_true, if_false, hpar, hni, valOf_at, hq, List.drop_succ_cons, List.drop_zero]
 
@@ -263,5 +263,58 @@ theorem setItem_hidden_refuse (cls : Cls) (kvs : List (Str × Val)) (q : Pos) (k
     show hasPathChar (slash ++ renderPos q ++ slash ++ (name ++ bracket e.text) ++ renderPos (tail.map Seg.key)) = true by
       simp [hasPathChar, slash],
     if_true, htok, hwalk, hhid, List.isEmpty_cons, Bool.not_false, hadd]
+
+/-! ### `delete` -/
+
+/-- **`delete('//…q…/name[e]')` with `e` denoting `0` or `-1` on a single value removes `name`** — the node lookup
+returns for that spelling (C05: delete accepts every spelling lookup accepts) -/
+theorem delete_hidden (cls : Cls) (kvs : List (Str × Val)) (q : Pos) (kcls : Cls) (nkvs : List (Str × Val))
+    (name : Str) (old : Val) (e : IdxSp) (t' : Val) (fuel : Nat)
+    (hp : PlainPos q) (hget : getAt (.dict cls kvs) q = some (.dict kcls nkvs)) (hn : PlainKey name)
+    (hl : lookup name nkvs = some old) (hs : isList old = false) (he : e.val = 0 ∨ e.val = -1)
+    (hdel : delAt (.dict cls kvs) (q ++ [.key name]) = some t') (hf : fuel ≥ 2 * q.length + 2) :
+    delete fuel (.dict cls kvs) (slash ++ renderPos q ++ slash ++ (name ++ bracket e.text)) false = (t', .ok ()) := by
+  have hP : getAt (.dict cls kvs) (q ++ [Seg.key name]) = some old := by
+    rw [getAt_snoc, hget]; simp [child, hl]
+  have hpp : PlainPos (q ++ [Seg.key name]) := hp.append ⟨hn, trivial⟩
+  obtain ⟨f, en, _, hwalk⟩ := hidden_walk cls kvs q kcls nkvs name old e [] fuel hp hget hn hl hf
+  rw [hidden_find_last f _ en true _ _ _ _ _ old hP hs e.idxTok he] at hwalk
+  have htok : tokenize (slash ++ renderPos q ++ slash ++ (name ++ bracket e.text)) = mergedToks q ++ [name ++ bracket e.text] := by
+    have := tokenize_elem_path q hp hn (hidden_cleanIdx e) [] (by simp)
+    simpa [renderPos] using this
+  obtain ⟨r1, hr1, hpar, hni, hfound⟩ := hidden_resolve fuel (.dict cls kvs) q kcls nkvs name old hp hn hget hl (by omega)
+  have hdt := delThrough_found (.dict cls kvs) _ old r1 t' hfound hdel
+  -- the tokens: n = number of tokens of `q`
+  have hlen : (mergedToks q ++ [name ++ bracket e.text]).length = (mergedToks q).length + 1 := by simp
+  have htake : (mergedToks q ++ [name ++ bracket e.text]).take ((mergedToks q).length + 1) = mergedToks q ++ [name ++ bracket e.text] := by
+    rw [List.take_of_length_le (by simp)]
+  have hgetD : (mergedToks q ++ [name ++ bracket e.text]).getD (mergedToks q).length [] = name ++ bracket e.text := by
+    simp [List.getD_eq_getElem?_getD]
+  have hname : name.isEmpty = false := isEmpty_false_of_ne hn.ne
+  have hdp : delPlace fuel (.dict cls kvs) (name ++ bracket e.text)
+      { parent := .wrap (.at (q ++ [Seg.key name])), nameIdx := some (bracket (intStr e.val)), value := old,
+        found := slash ++ renderPos (q ++ [Seg.key name]), notFound := Option.none } = .ok (some r1) := by
+    simp only [delPlace, isWrap, Res.isFound, Bool.and_self, if_true, (e.keyIdxTok hn).split, hname, Bool.false_eq_true, if_false, hr1]
+  unfold delete deleteTokens
+  simp only [htok, hlen]
+  rw [deleteLoop, htake, hwalk]
+  simp only [hgetD, hdp, Bool.true_or, if_true, hdt]
+  -- the remaining prefixes are prefixes of the plain path of `name`
+  have hcongr := deleteLoop_congr fuel false (mergedToks q).length (mergedToks q ++ [name ++ bracket e.text])
+    (mergedToks (q ++ [Seg.key name])) t' false (by
+      rw [mergedToks_append_key]
+      simp [mergedToks])
+  rw [hcongr]
+  have hsp := spells_merged _ (.dict cls kvs) old hpp hP
+  have hx : delChild (.dict kcls nkvs) (.key name) = some (.dict kcls (kvDel name nkvs)) := by
+    have : kvHas name nkvs = true := by simp [kvHas, hl]
+    simp [delChild, this]
+  have hsn := delAt_snoc q (.dict cls kvs) (.key name) _ _ hget hx
+  rw [hdel] at hsn
+  have hml : (mergedToks (q ++ [Seg.key name])).length = (mergedToks q).length + 1 := by
+    rw [mergedToks_append_key]; simp [mergedToks]
+  have hlen2 := mergedToks_length_le q
+  exact deleteLoop_rest fuel _ (.dict cls kvs) _ old hsp q (.key name) rfl _ t' hsn.symm (by rw [hml]; omega)
+    (mergedToks q).length (by rw [hml]; omega)
 
 end N0.XPath
